@@ -1080,6 +1080,32 @@ psBool_t tls13ServerFoundSupportedPsk(ssl_t *ssl,
     return PS_TRUE;
 }
 
+/** A resumption PSK is only usable for the ticket_lifetime that was
+    advertised in the NewSessionTicket it came from (RFC 8446, 4.6.1:
+    the server MUST NOT use a ticket for longer than that). */
+static
+psBool_t tls13ResumptionPskExpired(ssl_t *ssl,
+        psTls13Psk_t *psk)
+{
+    psTime_t now;
+    int32 ageMs;
+
+    if (!psk->isResumptionPsk || psk->params == NULL ||
+            psk->params->ticketLifetime == 0)
+    {
+        return PS_FALSE; /* Not from one of our tickets: no lifetime. */
+    }
+    psGetTime(&now, ssl->userPtr);
+    ageMs = psDiffMsecs(psk->params->timestamp, now, ssl->userPtr);
+    if (ageMs < 0 ||
+            (uint32_t)ageMs / 1000 > psk->params->ticketLifetime)
+    {
+        psTraceInfo("Resumption PSK has expired\n");
+        return PS_TRUE;
+    }
+    return PS_FALSE;
+}
+
 int32_t tls13ParsePreSharedKey(ssl_t *ssl,
         psParseBuf_t *pb)
 {
@@ -1184,6 +1210,7 @@ int32_t tls13ParsePreSharedKey(ssl_t *ssl,
                         idBuf.buf.start, identityLen,
                         &psk);
                 if (rc == PS_SUCCESS && psk != NULL &&
+                    !tls13ResumptionPskExpired(ssl, psk) &&
                     tls13GetPskHmacAlg(psk) ==
                         tls13CipherIdToHmacAlg(ssl->cipher->ident))
                 {
